@@ -2,3 +2,4 @@ import GlotaranModel.Proto
 import GlotaranModel.C19
 import GlotaranModel.LinAlg
 import GlotaranModel.C02
+import GlotaranModel.C03
